@@ -65,4 +65,30 @@ example : with_bit_dword_spilled 64 64 5 200 = some (.large [5, 0, 0, 256]) ∧
     clear_high_bits_large 64 64 [1, 2, 3] (2 ^ 64 - 1) = some (.large [1, 2, 3]) := by
   refine ⟨by decide, by decide, by decide, by decide, by decide, by decide⟩
 
+/-- **`TypedRepr::clear_bit`, arm `Large(buffer)`** (`buffer[idx] &= !(1 << (n % W))` as a checked access under its
+    `idx < len` guard) = the heap arm of the hand model's `TRepr.clearBit` -/
+theorem gen_clear_bit_large (W U n : Nat) (ws : List Nat) (hW : 1 ≤ W) :
+    clear_bit_large W U ws n = some (TRepr.clearBit W (.large ws) n) := by
+  have hW0 : W ≠ 0 := by omega
+  unfold clear_bit_large TRepr.clearBit
+  simp only [MachInt.div, hW0, if_false, bind, Option.bind, pure]
+  by_cases hc : n / W < ws.length
+  · simp [hc, MachInt.rem, hW0, one_shl W n hW, and_at, MachInt.not, wnot]
+  · simp [hc]
+
+/-- **`TypedRepr::split_bits`, arm `Large(buffer)`**: the `n == 0` exit, and the composition of the regenerated
+    `shr_large_ref` (high part) and `clear_high_bits_large` (low part) = the heap arm of `TRepr.splitBits` -/
+theorem gen_split_bits_large (W U n : Nat) (ws : List Nat) (hW : 1 ≤ W) (h32 : W ≤ 2 ^ 32) (hU : n < 2 ^ U) :
+    split_bits_large W U ws n = some (TRepr.splitBits W (.large ws) n) := by
+  unfold split_bits_large TRepr.splitBits
+  by_cases h0 : n = 0
+  · subst h0; simp
+  · have hb : (n == 0) = false := by simp [h0]
+    simp [hb, h0, Props.GenShiftHeap.gen_shr_large_ref W U n ws hW h32, gen_clear_high_bits_large W U n ws hW h32 hU]
+
+example : clear_bit_large 64 64 [5, 0, 0, 256] 200 = some (.small 5) ∧ clear_bit_large 64 64 [1, 2, 3] 500 = some (.large [1, 2, 3]) ∧
+    split_bits_large 64 64 [1, 2, 3, 4] 130 = some (.large [1, 2, 3], .small (2 ^ 64)) ∧
+    split_bits_large 64 64 [1, 2, 3] 0 = some (.small 0, .large [1, 2, 3]) := by
+  refine ⟨by decide, by decide, by decide, by decide⟩
+
 end Dashu.Props.GenBitsHeap
